@@ -188,3 +188,36 @@ Example int_to_int_example :
   is_int I16 = true /\ is_int U8 = true /\ in_range I16 (-300) /\
   convert_scalar I16 U8 (NI (-300)) = NI 0 /\ convert_scalar I64 U32 (NI (2 ^ 40)) = NI (2 ^ 32 - 1).
 Proof. repeat split; try (vm_compute; reflexivity); vm_compute; discriminate. Qed.
+
+(* ---- non-finite and signed-zero values with a floating-point output ------------ *)
+
+(* zeros (either sign), infinities and NaN: everything but a finite non-zero value *)
+Definition special_float (x : spec_float) : bool :=
+  match x with S754_finite _ _ _ => false | _ => true end.
+
+(* With a floating-point output type there is no rounding and no clipping stage,
+   and the cast keeps zeros, infinities and NaN as they are: +inf -> +inf,
+   -inf -> -inf, NaN -> NaN, -0.0 -> -0.0, +0.0 -> +0.0 (float32 -> float32,
+   float64 -> float32, and the float64 outputs the model also covers); the
+   caller's buffer is never written. *)
+Theorem float_output_preserves_nonfinite : forall i o x,
+  is_int i = false -> is_int o = false -> special_float x = true ->
+  round_flag i o = false /\ clip_flag i o = false /\ saturate_top i o = false /\
+  convert_scalar i o (NF x) = NF x /\
+  forall p wr nat_ l, snd (convert i o p wr nat_ l) = l.
+Proof.
+  intros i o x Hi Ho Hx.
+  destruct i; try discriminate Hi; destruct o; try discriminate Ho;
+    (repeat split; try reflexivity;
+     [ destruct x; try discriminate Hx; reflexivity
+     | intros p wr nat_ l; unfold convert, aliased; destruct p; reflexivity ]).
+Qed.
+
+Example float_output_nonfinite_example :
+  convert_scalar F64 F32 (NF (S754_infinity false)) = NF (S754_infinity false) /\
+  convert_scalar F64 F32 (NF (S754_infinity true)) = NF (S754_infinity true) /\
+  convert_scalar F32 F32 (NF S754_nan) = NF S754_nan /\
+  convert_scalar F64 F32 (NF (S754_zero true)) = NF (S754_zero true) /\
+  num_encode F32 (convert_scalar F64 F32 (num_decode F64 9218868437227405312)) = 2139095040 /\
+  num_encode F32 (convert_scalar F64 F32 (num_decode F64 9223372036854775808)) = 2147483648.
+Proof. repeat split; vm_compute; reflexivity. Qed.
